@@ -68,7 +68,7 @@ theorem bodyV4_eq_desc (v : Version) (hf : v.family = .v4) (ids : BodyIds) (op s
     (by simp; omega) (by simp; omega)
   have hi : Builder.intBitsGo 0 8 = natToBits 8 0 := by decide
   refine ⟨rfl, ?_⟩
-  simp [desc_wallet_MessageV4, encode, encodeFields, encodeField, Val.list, Builder.writeUint, Builder.writeInt, Builder.writeBits,
+  simp [desc_wallet_MessageV4, encode, encodeFields, encodeField, Val.list, Builder.writeUint, Builder.writeInt_wide _ _ 8 (by omega), Builder.writeBits,
     Builder.empty, cellBits, bind, Outcome.bind, natToBits_mod64, Prim.enc, Prim.encPayloadV1toV4, valLen_payVal,
     Nat.not_lt.mpr hn, hi, hp, signedLayout, hf, Builder.toCell, Cell.ordinary]
 
